@@ -98,6 +98,13 @@ Theorem elements_roundtrip_mod2pi : forall GM k, 0 < GM -> elliptic_inclined k -
 Proof. exact elements_roundtrip_mod_thm. Qed.
 Print Assumptions elements_roundtrip_mod2pi.
 
+(* ---- principal ranges: whatever state is converted (no hypothesis at all), the inclination lies in [0, PI], the node and
+   the eccentric anomaly in (-PI, PI], the perigee angle in [0, 2 PI) *)
+Theorem principal_ranges : forall GM r v,
+  let k := trs2kepler GM r v in 0 <= k_i k <= PI /\ principal k.
+Proof. exact principal_ranges_thm. Qed.
+Print Assumptions principal_ranges.
+
 (* ---- the property's direction: state -> elements -> state is the identity on bound, inclined, non-circular states *)
 Theorem state_roundtrip : forall GM r v,
   0 < GM -> bound_state GM r v -> inclined_state r v -> noncircular_state GM r v ->
